@@ -1367,13 +1367,16 @@ theorem currentPath_eq_finalPath (L : List Ren) (hord : Ord L) (f : Path) :
   | none =>
     exact rebase_eq_finalPath L L hord f (fun _ hx _ => hx)
 
-/-- the whole of `applyPlan`: the pre-flight check passes; when the content phase succeeds, the tree
-    it leaves is moved by `moveAll`, and only STEP 4 (reading back edited files) can still fail -/
+/-- the whole of `applyPlan`: the pre-flight check passes; when the content phase succeeds the rename phase
+    succeeds, and only STEP 4 (reading back edited files) can still fail.  On success the tree the content phase
+    left is moved by `moveAll`.  (Since repo commit 6667a82 a STEP 4 failure rolls the renames back, so the tree
+    is no longer `moveAll …` in that case; before it, it was.) -/
 theorem applyPlan_moves (t : Tree) (p : Plan) (hlo : LastOnly p.rens) (h2 : GDistinctSources p.rens)
     (h3 : GTreeWF t) (h4 : GKindsOk t p.rens) (h5 : GDestFree t p.rens)
     (hc : (contentPhase p.hunks t (sortedFiles p.hunks)).1 = .ok) :
-    (applyPlan t p).tree = moveAll p.rens (contentPhase p.hunks t (sortedFiles p.hunks)).2 ∧
-    ((applyPlan t p).outcome = .ok ∨ (applyPlan t p).outcome = .backupFailed) := by
+    ((applyPlan t p).outcome = .ok ∧
+      (applyPlan t p).tree = moveAll p.rens (contentPhase p.hunks t (sortedFiles p.hunks)).2) ∨
+    (applyPlan t p).outcome = .backupFailed ∨ (∃ e, (applyPlan t p).outcome = .rollbackFailed e) := by
   have hs := sameShape_contentPhase p.hunks (sortedFiles p.hunks) t
   have hr := renamePhase_sortRens (contentPhase p.hunks t (sortedFiles p.hunks)).2 p.rens hlo h2
     (h3.sameShape hs) (h4.sameShape hs) (h5.sameShape hs)
@@ -1385,10 +1388,43 @@ theorem applyPlan_moves (t : Tree) (p : Plan) (hlo : LastOnly p.rens) (h2 : GDis
     rw [hcp] at hc hr
     simp only at hc hr
     subst hc
-    simp only [hr, backupPhase, Bool.not_true, Bool.false_eq_true, if_false]
+    simp only [hr, Bool.not_true, Bool.false_eq_true, if_false]
+    unfold backupPhase
     split
-    · exact ⟨rfl, Or.inl rfl⟩
-    · exact ⟨rfl, Or.inr rfl⟩
+    · exact Or.inl ⟨rfl, rfl⟩
+    · split
+      · split
+        · exact Or.inr (Or.inl rfl)
+        · exact Or.inr (Or.inr ⟨_, rfl⟩)
+      · exact Or.inr (Or.inl rfl)
+
+/-- … and when every edited file can be read back at the place STEP 4 looks for it, `applyPlan` succeeds
+    and the tree is exactly `moveAll` of what the content phase left -/
+theorem applyPlan_moves_ok (t : Tree) (p : Plan) (hlo : LastOnly p.rens) (h2 : GDistinctSources p.rens)
+    (h3 : GTreeWF t) (h4 : GKindsOk t p.rens) (h5 : GDestFree t p.rens)
+    (hc : (contentPhase p.hunks t (sortedFiles p.hunks)).1 = .ok)
+    (hread : (sortedFiles p.hunks).all (fun f =>
+        readable (renamePhase (contentPhase p.hunks t (sortedFiles p.hunks)).2 [] (sortRens p.rens)).tree
+          (currentPath (renamePhase (contentPhase p.hunks t (sortedFiles p.hunks)).2 [] (sortRens p.rens)).performed f))
+        = true) :
+    (applyPlan t p).outcome = .ok ∧
+      (applyPlan t p).tree = moveAll p.rens (contentPhase p.hunks t (sortedFiles p.hunks)).2 := by
+  have hs := sameShape_contentPhase p.hunks (sortedFiles p.hunks) t
+  have hr := renamePhase_sortRens (contentPhase p.hunks t (sortedFiles p.hunks)).2 p.rens hlo h2
+    (h3.sameShape hs) (h4.sameShape hs) (h5.sameShape hs)
+  have hpf : preflightOk t p.rens = true := preflight_of_fresh (fresh_keys h3 hlo h5)
+  unfold applyPlan
+  rw [hpf]
+  cases hcp : contentPhase p.hunks t (sortedFiles p.hunks) with
+  | mk o t1 =>
+    rw [hcp] at hc hr hread
+    simp only at hc hr hread
+    subst hc
+    simp only [hr, Bool.not_true, Bool.false_eq_true, if_false]
+    unfold backupPhase
+    rw [hr] at hread
+    rw [if_pos hread]
+    exact ⟨rfl, rfl⟩
 
 /-- a plan whose destination exists is refused before anything is touched -/
 theorem applyPlan_refused (t : Tree) (p : Plan) (h : preflightOk t p.rens = false) :
